@@ -68,6 +68,12 @@ Definition s_reply (a : answer) (ss : sess) : sess := fire false ss (step false 
 
 Definition s_abort (ss : sess) : sess := fire true ss (abort (ag ss)).
 
+(* ~DiscoveryAgent(): calls Abort() (a pending callback runs once with (false, {})); the agent is gone,
+   a new one is constructed afterwards.  The dying agent's callback does not start another run. *)
+Definition s_destroy (ss : sess) : sess :=
+  let ss1 := fire true (mkSess (ag ss) (owner ss) ANone (next_id ss) (events ss)) (abort (ag ss)) in
+  mkSess idle0 (owner ss1) ANone (next_id ss1) (events ss1).
+
 (* replies of a responder population *)
 Definition pop_answer (pop : list resp) (c : call) : answer * list resp :=
   match c with
